@@ -546,6 +546,31 @@ class Program:
         if self._callgraph_done:
             return
         self._callgraph_done = True
+        self._regparams = {}
+        # parameters that receive a registry member: helper(format_module, ...) called with a registry-typed local
+        for _round in range(3):
+            changed = False
+            for f in list(self.funcs.values()):
+                regvars = self._registry_typed_locals(f)
+                if not regvars:
+                    continue
+                for n in f.own_nodes():
+                    if not isinstance(n, ast.Call):
+                        continue
+                    r = self.resolve_expr(f, f.module, n.func)
+                    if not (r and r[0] == "func"):
+                        continue
+                    g = r[1]
+                    pos = list(g.posparams)
+                    pairs = list(zip(pos, n.args)) + [(k.arg, k.value) for k in n.keywords if k.arg in g.params]
+                    for pname, a in pairs:
+                        if isinstance(a, ast.Name) and a.id in regvars:
+                            d = self._regparams.setdefault(g.qualname, {})
+                            if d.get(pname) != regvars[a.id]:
+                                d[pname] = regvars[a.id]
+                                changed = True
+            if not changed:
+                break
         for f in list(self.funcs.values()) + [m.toplevel for m in self.modules.values()]:
             regvars = self._registry_typed_locals(f)
             for n in f.own_nodes():
@@ -595,6 +620,8 @@ class Program:
                             out[n.targets[0].id] = "format"
                         elif self._returns_registry_member(r[1], "INPUT_MODULES"):
                             out[n.targets[0].id] = "input"
+        for k, v in getattr(self, "_regparams", {}).get(f.qualname, {}).items():
+            out.setdefault(k, v)
         # closures see the registry-typed locals of their parents
         p = f.parent
         while p is not None:
